@@ -102,14 +102,13 @@ Definition all_ext_taken (log : list eitem) : list event := flat_map ext_taken (
 Definition all_ext_arrived (log : list eitem) : list event :=
   flat_map (fun it => match it with LStep r => ext_sent r | LExt e => [e] | LCancel => [cancel_event] end) log.
 
-(* the event names a step reports (beforeProcessingEvent) *)
-Definition step_new_tokens (r : erec) : list tok :=
-  rev (firstn (length (x_out (r_x' r)) - length (x_out (r_x r))) (x_out (r_x' r))).
-
 (* ------------------------------------------------------------------ quiescence *)
 
 Definition takes_external (r : erec) : Prop :=
   match r_deq r with DeqExt _ | DeqExtEmpty => True | _ => False end.
+(* the same seen from the queue: what was in the external queue is no longer a prefix of it *)
+Definition external_popped (r : erec) : Prop :=
+  ~ exists ae, x_eq (r_x' r) = x_eq (r_x r) ++ ae.
 
 (* the event-less selection of the two engines in configuration [cfg] and execution state [x] *)
 Definition large_esel (v : lg_variant) (c : fchart) (cfg : list nat) (x : xstate) : list nat :=
